@@ -113,11 +113,12 @@ func corpusFile(name string) []byte {
 
 // cliInput describes the bytes of one input file so that a protocol line can rebuild them.
 type cliInput struct {
-	kind string // file trunc lenmis cat hex none
+	kind string // file trunc lenmis cat hex none sub suball upcase
 	name string
 	n    int
 	sub  []cliInput
 	raw  []byte
+	raw2 []byte
 }
 
 func inFile(name string) cliInput         { return cliInput{kind: "file", name: name} }
@@ -126,6 +127,37 @@ func inLenMis(name string) cliInput       { return cliInput{kind: "lenmis", name
 func inCat(a, b cliInput) cliInput        { return cliInput{kind: "cat", sub: []cliInput{a, b}} }
 func inHex(p []byte) cliInput             { return cliInput{kind: "hex", raw: p} }
 func inNone() cliInput                    { return cliInput{kind: "none"} }
+
+// inSub: the first occurrence of a replaced by b; inSubAll: every occurrence; inUpcase: the
+// residue lines (GenBank: between ORIGIN and //; FASTA: the lines that are not headers) in upper case
+func inSub(in cliInput, a, b string) cliInput {
+	return cliInput{kind: "sub", sub: []cliInput{in}, raw: []byte(a), raw2: []byte(b)}
+}
+func inSubAll(in cliInput, a, b string) cliInput {
+	return cliInput{kind: "suball", sub: []cliInput{in}, raw: []byte(a), raw2: []byte(b)}
+}
+func inUpcase(in cliInput) cliInput { return cliInput{kind: "upcase", sub: []cliInput{in}} }
+
+func upcaseResidues(p []byte) []byte {
+	lines := bytes.SplitAfter(p, []byte("\n"))
+	fasta := len(p) > 0 && p[0] == '>'
+	inOrigin := false
+	var out []byte
+	for _, l := range lines {
+		switch {
+		case fasta && !bytes.HasPrefix(l, []byte(">")):
+			l = bytes.ToUpper(l)
+		case !fasta && bytes.HasPrefix(l, []byte("ORIGIN")):
+			inOrigin = true
+		case !fasta && bytes.HasPrefix(l, []byte("//")):
+			inOrigin = false
+		case inOrigin:
+			l = bytes.ToUpper(l)
+		}
+		out = append(out, l...)
+	}
+	return out
+}
 
 func (in cliInput) bytes() []byte {
 	switch in.kind {
@@ -160,6 +192,12 @@ func (in cliInput) bytes() []byte {
 		return append(append([]byte{}, in.sub[0].bytes()...), in.sub[1].bytes()...)
 	case "hex":
 		return in.raw
+	case "sub":
+		return bytes.Replace(in.sub[0].bytes(), in.raw, in.raw2, 1)
+	case "suball":
+		return bytes.ReplaceAll(in.sub[0].bytes(), in.raw, in.raw2)
+	case "upcase":
+		return upcaseResidues(in.sub[0].bytes())
 	}
 	return nil
 }
@@ -176,6 +214,10 @@ func (in cliInput) enc() string {
 		return "(cat " + in.sub[0].enc() + " " + in.sub[1].enc() + ")"
 	case "hex":
 		return "(hex " + encBytes(in.raw) + ")"
+	case "sub", "suball":
+		return "(" + in.kind + " " + in.sub[0].enc() + " " + encBytes(in.raw) + " " + encBytes(in.raw2) + ")"
+	case "upcase":
+		return "(upcase " + in.sub[0].enc() + ")"
 	}
 	return "(none)"
 }
@@ -196,6 +238,12 @@ func decInput(s sexp) cliInput {
 		return inCat(decInput(a[0]), decInput(a[1]))
 	case "hex":
 		return inHex(decBytes(a[0]))
+	case "sub":
+		return inSub(decInput(a[0]), string(decBytes(a[1])), string(decBytes(a[2])))
+	case "suball":
+		return inSubAll(decInput(a[0]), string(decBytes(a[1])), string(decBytes(a[2])))
+	case "upcase":
+		return inUpcase(decInput(a[0]))
 	case "none":
 		return inNone()
 	}
@@ -1014,6 +1062,68 @@ func propC14(r *Run) {
 			}
 		}
 	}
+	// --- annotation-only changes: the secondary input (guest, host, query, feature table) changes
+	// ONLY in a qualifier value / a feature key / a location / a header field / the residue case /
+	// the line ends, the primary input and the arguments stay; and the mirror, the primary input
+	// changes only in that way.  History (base, edited, base).
+	for ci := range c14Cmds {
+		cmd := &c14Cmds[ci]
+		nb := 2
+		if thorough {
+			nb = 6
+		}
+		for _, p := range cmd.pos {
+			if p.kind == "file" {
+				nb *= 2
+			}
+		}
+		for b := 0; b < nb; b++ {
+			base := c14Base(r.rng, cmd, primaries[b%2]) // the two GenBank corpus records
+			for i, p := range cmd.pos {
+				if p.kind != "file" {
+					continue
+				}
+				if len(base.pos[i]) == 1 { // a literal: use a file
+					base.pos[i] = nil
+					base.sec[i] = c14Secondary(r.rng, cmd.name, b)
+				}
+				if cmd.name != "annotate" {
+					base.sec[i] = inFile([]string{"NC_001422_part.gb", "pBAT5.txt", "NC_001422_part.fasta"}[(b+ci)%3])
+				}
+				baseRun := base.run()
+				edits := c14AnnotationEdits(base.sec[i])
+				labels := make([]string, 0, len(edits))
+				for l := range edits {
+					labels = append(labels, l)
+				}
+				sort.Strings(labels)
+				for _, l := range labels {
+					v := base.clone()
+					v.sec[i] = edits[l]
+					h := histOf("annotation/secondary/"+l, baseRun, v.run(), baseRun)
+					h.inputChanged[1] = true
+					hists = append(hists, h)
+				}
+			}
+			baseRun := base.run()
+			edits := c14AnnotationEdits(base.primary)
+			labels := make([]string, 0, len(edits))
+			for l := range edits {
+				labels = append(labels, l)
+			}
+			sort.Strings(labels)
+			for _, l := range labels {
+				if !thorough && r.rng.intn(2) == 0 {
+					continue
+				}
+				v := base.clone()
+				v.primary = edits[l]
+				h := histOf("annotation/primary/"+l, baseRun, v.run(), baseRun)
+				h.inputChanged[1] = true
+				hists = append(hists, h)
+			}
+		}
+	}
 	// --- declarations the regenerated table reports as not reaching the payload (bin/check hands
 	// them over when `payload_complete` fails): for a switch, search the two-run history
 	// (without, with, without) on several bases
@@ -1131,6 +1241,13 @@ func propC14(r *Run) {
 			r.count("sweep/change-without-effect/" + h.steps[0].run.cmd + " " + strings.Join(h.steps[0].run.args, " ") + " => " + strings.Join(h.steps[1].run.args, " "))
 		}
 		r.count(fmt.Sprintf("history/length-%d", len(h.steps)))
+		if strings.HasPrefix(h.kind, "annotation/") && len(res.nocache) >= 2 {
+			if res.nocache[0].String() != res.nocache[1].String() {
+				r.count("annotation-shows-uncached/" + strings.TrimPrefix(h.kind, "annotation/"))
+			} else {
+				r.count("annotation-without-effect/" + strings.TrimPrefix(h.kind, "annotation/"))
+			}
+		}
 		ans := strings.Split(res.answer, " ")
 		if len(ans) != len(h.steps) {
 			r.fail(Failure{Oracle: "the history runs to its end", Op: res.line, Got: res.answer})
@@ -1206,6 +1323,49 @@ func pickOther(r *rng, vals []string, cur string) string {
 			return v
 		}
 	}
+}
+
+// c14AnnotationEdits: versions of an input that differ from it ONLY in (a) a qualifier value,
+// (b) a feature key / a location, (c) a header field, (d) the letter case of the residues,
+// (e) trailing white space / line ends — whatever applies to the format.
+func c14AnnotationEdits(in cliInput) map[string]cliInput {
+	p := in.bytes()
+	out := map[string]cliInput{}
+	add := func(label string, e cliInput) {
+		if !bytes.Equal(e.bytes(), p) {
+			out[label] = e
+		}
+	}
+	switch {
+	case bytes.HasPrefix(p, []byte("LOCUS")):
+		add("qualifier-value", inSub(in, "/product=\"G\"", "/product=\"major spike protein G\""))
+		add("qualifier-value", inSub(in, "/label=", "/label=x"))
+		add("feature-key", inSub(in, "     CDS             ", "     misc_RNA        "))
+		add("feature-key", inSub(in, "     misc_feature    ", "     misc_signal     "))
+		add("feature-location", inSub(in, "     gene            16..>133", "     gene            17..>133"))
+		add("feature-location", inSub(in, "     terminator      160..288", "     terminator      161..288"))
+		add("header-definition", inSub(in, "DEFINITION  ", "DEFINITION  edited "))
+		add("residue-case", inUpcase(in))
+		add("line-ends", inSubAll(in, "\n", "\r\n"))
+		add("trailing-newline", inCat(in, inHex([]byte("\n"))))
+	case bytes.HasPrefix(p, []byte(">")):
+		add("header-definition", inSub(in, " ", " edited "))
+		add("residue-case", inSub(in, "CTTAGGAG", "cttaggag"))
+		add("residue-case", inSub(in, "GAGTTTTATCGCTTCC", "gagttttatcgcttcc"))
+		add("line-ends", inSubAll(in, "\n", "\r\n"))
+		add("trailing-newline", inCat(in, inHex([]byte("\n"))))
+	default: // a feature table
+		add("qualifier-value", inSub(in, "=\"zz\"", "=\"zy\""))
+		add("qualifier-value", inSub(in, "=\"p\"", "=\"q\""))
+		add("feature-key", inSub(in, "     gene            ", "     exon            "))
+		add("feature-key", inSub(in, "     CDS             ", "     exon            "))
+		add("feature-location", inSub(in, "10..40", "10..41"))
+		add("feature-location", inSub(in, "11..40", "11..41"))
+		add("feature-location", inSub(in, "1..9", "1..8"))
+		add("line-ends", inSubAll(in, "\n", "\r\n"))
+		add("trailing-newline", inCat(in, inHex([]byte("\n"))))
+	}
+	return out
 }
 
 func c14HasNewID(before, after string) bool {
